@@ -270,6 +270,70 @@ theorem one_note_per_object (n : Nat) (hn : 1 ≤ n) (t : Tree) (ops : List Op)
       refine ⟨q1, ?_, q3⟩
       rw [q2, h3]; rfl
 
+/-- **the code before the fix, partial statement.** If every entry of the tree is at fan-out
+    depth ≤ 1 — the hypothesis the old code silently relied on — the old batch writer and the old
+    batch lookup compute exactly what the fixed ones do (so `one_note_per_object` holds for
+    them on such trees, as long as git's own writer also stays at depth ≤ 1). The full statement
+    (any layout) is false for the old code: `witness_O6_duplicate_before_fix`,
+    `witness_O6_missed_lookup_before_fix`; git itself moves entries to depth 2 in dense
+    subtrees (end-to-end scenario `git-refans-*`), so the hypothesis was not an invariant. -/
+theorem one_note_per_object_before_fix_partial (n : Nat) (hn : 1 ≤ n) (t : Tree)
+    (es : List (Str × Blob)) (shas : List Str) (h0 : WFTree n t)
+    (hdepth : ∀ e ∈ t, depthOf e.1 ≤ 1) (hes : ∀ e ∈ es, IsOid n e.1) (hs : ∀ o ∈ shas, IsOid n o) :
+    notesAddBatchV0 t es = notesAddBatch t es ∧
+    lookupAllV0 t shas = noteBlobOidsForCommits t shas := by
+  constructor
+  · have key : ∀ (l : List (Str × Blob)) (t : Tree), WFTree n t → (∀ e ∈ t, depthOf e.1 ≤ 1) →
+        (∀ e ∈ l, IsOid n e.1) → applyEntriesV0 t l = applyEntries t l := by
+      intro l
+      induction l with
+      | nil => intro t _ _ _; rfl
+      | cons e l ih =>
+        intro t ht hd hl
+        obtain ⟨o, b⟩ := e
+        have ho : IsOid n o := hl (o, b) (by simp)
+        obtain ⟨c0, hc0, e0⟩ := noteTreeUpdateV0_effect hn t o b ht.shape hd ho
+        obtain ⟨c1, hc1, e1⟩ := noteTreeUpdate_effect hn t o b ht.shape ho
+        unfold applyEntriesV0 applyEntries
+        rw [hc0, hc1]
+        simp only [e0, e1]
+        exact ih (setNote 1 t o b) (setNote_wf 1 t o b ht ho) (setNote_depth t o b ho.noslash hd)
+          (fun e he => hl e (by simp [he]))
+    unfold notesAddBatchV0 notesAddBatch
+    split
+    · rfl
+    · exact key (dedupeLast es) t h0 hdepth (fun e he => hes e (mem_dedupeLast es e he))
+  · rw [lookup_finds_all t shas h0 hs]
+    induction shas with
+    | nil => rfl
+    | cons o shas ih =>
+      have ho := hs o (by simp)
+      unfold lookupAllV0
+      rw [notesPathForObject_hex o ho.2, ih (fun x hx => hs x (by simp [hx]))]
+      simp only
+      have hfs : [o, fanPath 1 o].findSome? (catFileBlob t) = gitNotesShow t o := by
+        apply findSome_paths t o _ h0 ho
+        · intro p hp
+          simp only [List.mem_cons, List.not_mem_nil, or_false] at hp
+          rcases hp with rfl | rfl
+          · have := fanPath_mem_variants 0 p; simpa [fanPath] using this
+          · exact fanPath_mem_variants 1 o
+        · intro k b hk hko
+          obtain ⟨_, d, hd⟩ := objOf_shape (h0.shape _ hk)
+          rw [hko] at hd
+          have hd' : k = fanPath d o := hd
+          have hdep : depthOf k ≤ 1 := hdepth _ hk
+          rw [hd'] at hdep ⊢
+          rcases fanPath_depth_le_one d o ho.noslash hdep with h | h
+          · rw [h]; simp
+          · rw [h]; simp
+      rw [hfs, List.filterMap_cons]
+      cases gitNotesShow t o <;> rfl
+
+/-- non-vacuity of the depth hypothesis -/
+example : ∀ e ∈ ([(chars% "12345678", chars% "n2"), (chars% "9a/bcdef0", chars% "n3")] : Tree), depthOf e.1 ≤ 1 := by
+  decide
+
 /-- decidable form of `WFTree` (used for the examples and by the driver) -/
 def wfTreeB (n : Nat) (t : Tree) : Bool :=
   t.all (fun e => isNotePath e.1 && (objOf e.1).length == n) &&
@@ -625,6 +689,7 @@ end GitAi.NotesTree
 
 #print axioms GitAi.NotesTree.one_note_per_object
 #print axioms GitAi.NotesTree.lookup_finds_all
+#print axioms GitAi.NotesTree.one_note_per_object_before_fix_partial
 #print axioms GitAi.NotesTree.specSet_lookup
 #print axioms GitAi.NotesTree.batch_last_entry_wins
 #print axioms GitAi.NotesTree.add_sets_note
